@@ -466,7 +466,7 @@ def _negative_int(e: ast.AST) -> Optional[bool]:
     return None
 
 
-def axis_addressing(idx: ProgramIndex, rep: Report, fs: List[ClassInfo]):
+def axis_addressing(idx: ProgramIndex, rep: Report, fs: List[ClassInfo], rule: str = "C19-5", floor: int = 10):
     """In the modules that define autograd Functions every tensor method that addresses matrix axes must name them from the
     right: `.diagonal()` defaults to dims (0, 1), `.t()` is 2-D only, `transpose(0, 1)` / positive reduction dims hit batch axes."""
     from .c08 import _neg_dim, REDUCTIONS
@@ -497,21 +497,21 @@ def axis_addressing(idx: ProgramIndex, rep: Report, fs: List[ClassInfo]):
                 d1 = kw.get("dim1", c.args[1] if len(c.args) > 1 else None)
                 d2 = kw.get("dim2", c.args[2] if len(c.args) > 2 else None)
                 ok = d1 is not None and d2 is not None and _negative_int(d1) is True and _negative_int(d2) is True
-                rep.add("C19-5", inst, where, ok, "diagonal over dims (%s, %s)" % (src(d1), src(d2)) if ok else
+                rep.add(rule, inst, where, ok, "diagonal over dims (%s, %s)" % (src(d1), src(d2)) if ok else
                         "`%s` takes the diagonal over the default dims (0, 1) (or non-negative dims): for a batched matrix these are batch axes, so the hand-written gradient is wrong for batch shapes" % norm(c)[:60], {})
             elif m == "transpose" and len(c.args) == 2:
                 n += 1
                 a, b = _negative_int(c.args[0]), _negative_int(c.args[1])
                 ok = a is True and b is True
                 if a is None or b is None:
-                    rep.observe("C19-5", inst, where, "transpose with non-literal dims")
+                    rep.observe(rule, inst, where, "transpose with non-literal dims")
                 else:
-                    rep.add("C19-5", inst, where, ok, "transposes the last two axes" if ok else "`%s` addresses axes from the left: batch axes are transposed" % norm(c)[:60], {})
+                    rep.add(rule, inst, where, ok, "transposes the last two axes" if ok else "`%s` addresses axes from the left: batch axes are transposed" % norm(c)[:60], {})
             elif m == "t" and not c.args:
                 n += 1
                 recv = c.func.value
                 two_d = isinstance(recv, ast.Call) and isinstance(recv.func, ast.Attribute) and recv.func.attr in ("view", "reshape") and len(recv.args) == 2
-                rep.add("C19-5", inst, where, two_d, ".t() of an explicitly 2-D view" if two_d else "`.t()` is defined for <= 2-D tensors only: a batched operand raises or transposes the wrong axes", {})
+                rep.add(rule, inst, where, two_d, ".t() of an explicitly 2-D view" if two_d else "`.t()` is defined for <= 2-D tensors only: a batched operand raises or transposes the wrong axes", {})
             elif m in REDUCTIONS and base not in ("torch", "math"):
                 dim = None
                 for k in c.keywords:
@@ -524,7 +524,7 @@ def axis_addressing(idx: ProgramIndex, rep: Report, fs: List[ClassInfo]):
                 v = _neg_dim(dim, f.node)
                 n += 1
                 if v is None:
-                    rep.observe("C19-5", inst, where, "reduction dim `%s` is not a literal" % src(dim))
+                    rep.observe(rule, inst, where, "reduction dim `%s` is not a literal" % src(dim))
                 else:
-                    rep.add("C19-5", inst, where, v, "reduces over dim %s" % src(dim) if v else "`%s` reduces over a non-negative dim (a batch axis when the input is batched)" % norm(c)[:60], {})
-    rep.floor("C19-5", "axis-addressing calls in Function modules", n, 10)
+                    rep.add(rule, inst, where, v, "reduces over dim %s" % src(dim) if v else "`%s` reduces over a non-negative dim (a batch axis when the input is batched)" % norm(c)[:60], {})
+    rep.floor(rule, "axis-addressing calls in Function modules", n, floor)
